@@ -168,7 +168,7 @@ def c03(pid, tier, replay):
         else:
             jobs.append(J("collide", Variant="collide", Mode=m, OctB=1, ChanB=1, split=4))
     return device_check(pid, tier, replay, ["C03_"], jobs, drivers=[devdrivers.random_keys, devdrivers.random_cfg_keys, devdrivers.edge_pitch_collisions,
-                                 devdrivers.tight_key_batches],
+                                 devdrivers.tight_key_batches, devdrivers.logging_key_batches],
                         assumptions=ASSUME_DEV)
 
 
@@ -197,7 +197,7 @@ def c13(pid, tier, replay):
 def c14(pid, tier, replay):
     jobs = [J("exit", Variant="exit", Mode=m, OctB=1, ChanB=0, ExitLen=n, TapActions=False)
             for n in (0, 1, 2, 3) for m in (MODES if tier == "thorough" else ["interrupt"])]
-    return device_check(pid, tier, replay, ["C14_"], jobs, drivers=[devdrivers.random_exit], assumptions=ASSUME_DEV)
+    return device_check(pid, tier, replay, ["C14_"], jobs, drivers=[devdrivers.random_exit, devdrivers.tight_exit_batches], assumptions=ASSUME_DEV)
 
 
 def with_toml(batches):
@@ -696,6 +696,13 @@ def fan_scenarios(seed, tier):
             rng.shuffle(four)
             add(cap, [{"op": "spawn", "c": x} for x in four] + [{"op": "stop", "c": x} for x in four] + burst +
                 [{"op": "despawn", "c": x} for x in four] + [{"op": "spawn", "c": "e"}] + [{"op": "inject", "m": 60 + i} for i in range(3)])
+    # devices attached at the same moment (the manager starts every device from a goroutine of its own): each gets an output
+    # of its own, each receives everything injected afterwards, each can be removed
+    for rep in range(60 if tier == "quick" else 600):
+        many = ["a", "b", "c", "d", "e", "f"][:2 + rep % 5]
+        pre = [{"op": "spawn", "c": "z"}] if rep % 3 == 0 else []
+        add(rng.choice([0, 1, 8]), pre + [{"op": "spawn_many", "cs": many}] + [{"op": "inject", "m": i + 1} for i in range(4)] +
+            [{"op": "despawn", "c": x} for x in many] + [{"op": "inject", "m": 10 + i} for i in range(2)])
     n = 150 if tier == "quick" else 3000
     names = ["a", "b", "c", "d"]
     for _ in range(n):
@@ -1007,6 +1014,20 @@ LED_LAYOUTS = [
 _unshare_ok = None
 
 
+class LedAbort(Exception):
+    """The LED harness process was taken down by the Go runtime (unrecovered panic / fatal error) with HIDI code on a
+    stack: the behaviour itself, not an infrastructure problem."""
+    def __init__(self, stderr, batches):
+        Exception.__init__(self, "LED harness aborted")
+        self.stderr, self.batches = stderr, batches
+
+    def frames(self):
+        return [l.strip() for l in self.stderr.splitlines() if "gethiox/HIDI/internal/pkg" in l and "/internal/verif/" not in l][:6]
+
+    def head(self):
+        return " / ".join([l for l in self.stderr.splitlines() if l.startswith(("fatal error:", "panic:"))][:2])[:300]
+
+
 def run_led(scr, batches, tag="led", race=False, extra_env=None):
     """Run `verifh led` inside a mount namespace whose /sys/class/hidraw maps hidraw7 -> event3."""
     global _unshare_ok
@@ -1029,6 +1050,8 @@ def run_led(scr, batches, tag="led", race=False, extra_env=None):
     if r.returncode != 0 and ("unshare" in r.stderr or "mount" in r.stderr or "Operation not permitted" in r.stderr):
         raise Infra("cannot provide /sys/class/hidraw through a mount namespace in this sandbox: " + r.stderr[-500:])
     if r.returncode != 0 and not (race and r.returncode == 66):
+        if hidi_abort(r.stderr):
+            raise LedAbort(r.stderr, batches)
         raise Infra("LED harness failed: " + r.stderr[-3000:])
     return tpath, r.stderr
 
@@ -1106,6 +1129,16 @@ def c17(pid, tier, replay):
                 w += [{"ev": "press", "k": up}, {"ev": "release", "k": up}]
             w += [{"ev": "release", "k": "KEY_D"}, {"ev": "disconnect"}]
             far.append(w)
+        # semitone and octave far apart in opposite directions: note + semitone alone is far below 0 (above 127) while the
+        # transposed pitch is back inside the range - every pitch class is passed semitone by semitone
+        for semi, octv in (("KEY_F3", "KEY_F2"), ("KEY_F4", "KEY_F1")):
+            w = [{"ev": "midiin", "msg": [144, 61, 90]}]
+            for n_semi, n_oct in ((55, 1), (30, 1), (15, 1), (14, 0)):
+                for _ in range(n_semi):
+                    w += [{"ev": "press", "k": semi}, {"ev": "release", "k": semi}]
+                for _ in range(n_oct):
+                    w += [{"ev": "press", "k": octv}, {"ev": "release", "k": octv}]
+            far.append(w + [{"ev": "press", "k": "KEY_S"}, {"ev": "disconnect"}])
         # all sixteen channels: the channel keys show the channel's colour, dimmed at the ends; MIDI-in notes on
         # the channel that becomes current turn to the external colour
         w = [{"ev": "midiin", "msg": [0x95, 60, 80]}, {"ev": "midiin", "msg": [0x9F, 62, 80]}]
@@ -1151,13 +1184,26 @@ def c17(pid, tier, replay):
                 + T("KEY_F11") + T("KEY_F12") + T("KEY_F1") + [{"ev": "press", "k": "KEY_D"}, {"ev": "disconnect"}]
             sample = [w for w in d["walks"][dmap::max(1, len(d["walks"]) // 12)]][:12]
             groups.append([{"cfg": ctl, "colors": LED_COLORS, "layout": LED_LAYOUTS[dmap - 1], "walks": [wc] + sample}])
+    aborts = []
     def one(g):
-        t, _ = run_led(scr, g)
+        try:
+            t, _ = run_led(scr, g)
+        except LedAbort as e:
+            return None, e
         return t, vlib.validate_trace(scr, "LedTrace", t, xmx="3g")
     with ThreadPoolExecutor(max_workers=14) as ex:
         for t, r in ex.map(one, groups):
+            if t is None:
+                aborts.append(r)
+                continue
             out.add_validation(t, r)
-    return out.finish(rule="every transition of the bounded model (key events, action taps, MIDI-input notes, disconnect) is replayed on the "
+    for e in aborts[:3]:
+        # the device (its LED goroutine, its MIDI-input goroutine or its event loop) took the process down
+        rp = vlib.write_replay(pid, {"property": pid, "predicate": "X_Crash", "case": {"ev": "abort", "text": e.stderr[:1800], "frames": e.frames()},
+                                     "batches": e.batches})
+        print("VIOLATION property=%s replay=%s" % (pid, rp))
+        print("  the device took the process down while its LED feedback was connected: %s %s" % (e.head(), e.frames()[:2]))
+    rc = out.finish(rule="every transition of the bounded model (key events, action taps, MIDI-input notes, disconnect) is replayed on the "
                            "real device with its LED goroutine connected to a fake OpenRGB server; after each step the frame received two "
                            "refresh cycles later is judged by Led!FrameJudgement; three LED layouts",
                       assumptions=["the frame judged after a step is the last one received once two further frames have arrived (the first of "
@@ -1165,6 +1211,7 @@ def c17(pid, tier, replay):
                                    "/sys/class/hidraw is provided through a private mount namespace (unshare -m)",
                                    "implementation-defined palettes (channel colours, brightness steps of the action keys) are judged for "
                                    "consistency and distinctness, configured colours within +-2 per channel (HSV round trip)"])
+    return 1 if aborts else rc
 
 
 REGISTRY["C17"] = c17
@@ -1274,12 +1321,19 @@ def c16(pid, tier, replay):
     scr.build(race=True)
     racelog = scr.path("race.log")
     groups = lifecycle_batches(vlib.seed(), tier)
+    led_aborts = []
     def one(g):
-        t, _ = run_led(scr, g, tag="life", race=True, extra_env={"GORACE": "halt_on_error=0 log_path=%s" % racelog})
+        try:
+            t, _ = run_led(scr, g, tag="life", race=True, extra_env={"GORACE": "halt_on_error=0 log_path=%s" % racelog})
+        except LedAbort as e:
+            return None, e
         return t, vlib.validate_trace(scr, "LedTrace", t, xmx="3g")
     lat = {"max_return_ms": 0, "max_req_after": 0, "disconnects": 0}
     with ThreadPoolExecutor(max_workers=6) as ex:
         for t, r in ex.map(one, groups):
+            if t is None:
+                led_aborts.append(r)
+                continue
             with open(t) as f:
                 for line in f:
                     if '"disconnect"' in line:
@@ -1366,6 +1420,10 @@ def c16(pid, tier, replay):
             open(t2, "w").close()
         else:
             raise Infra("isolation harness failed: " + err[-3000:])
+    # a life-cycle scenario that took the process down (unrecovered panic in one of the device's goroutines): the device's
+    # processing did not end, it was ended - with every other device of the process
+    for e in led_aborts:
+        crash_lines.append({"ev": "abort", "frames": e.frames() or ["?"], "text": (e.head() + "\n" + e.stderr)[:1800]})
     seen, uniq = set(), []
     for r in parse_race_logs(racelog) + crash_lines:
         key = tuple(r["frames"][:4])
